@@ -56,6 +56,16 @@ CHECKS = {
             "content lines that look like a closing fence are not generated (not representable); non-zone values are compared "
             "only by kind here (their fidelity is C02/C04)",
             "DESIGN.md §3 C05"),
+    "C07": ("exploration",
+            "bijection oracle: rewrites injected by the generator (with positions) vs receipts, as multisets",
+            "The lenient renderer records every rewrite it injects (alias, triple quotes, bare multi-word, brace annotation) "
+            "with original, replacement, line and NFC column; the multiset must equal the receipts of those kinds from "
+            "parse_with_warnings, tokenize(lenient), octave_validate.repairs/repair_log and octave_write.corrections "
+            "(lenient and strict); alias characters inside strings/comments/zones must produce none; canonical text "
+            "must produce none. Sampled, not exhaustive.",
+            "advisory receipts that rewrite nothing (spec_violation, duplicate_key, deep_nesting, constructor_misuse, "
+            "pattern auto-quote) are outside the bijection; compilations (capped at 5) only checked for inclusion",
+            "DESIGN.md §3 C07"),
 }
 
 NOT_YET = {
